@@ -269,6 +269,7 @@ type Snapshot struct {
 	QueueGauge int           `json:"queue_size_gauge"`
 	BacklogLen int           `json:"backlog_len"`
 	InFlight   int64         `json:"limiter_inflight_gauge"`
+	GateOut    int64         `json:"delegate_tokens_outstanding"`
 }
 
 // bound returns the virtual instant at which a blocked waiter gives up by itself (0 = never).
@@ -288,8 +289,11 @@ func (w *World) bound(wt *Waiter) time.Duration {
 func (w *World) Snap(tag string) Snapshot {
 	s := Snapshot{Tag: tag, At: w.Now(), Busy: w.Strat.GetBusyCount(), QueueGauge: -1, BacklogLen: -1, InFlight: w.Default.VerifInFlight()}
 	s.Free = w.Strat.GetLimit() - s.Busy
+	s.GateOut = w.Gate.Outstanding()
 	if w.janitor != nil {
 		s.Busy-- // the janitor token is not part of the scenario's capacity
+		s.InFlight--
+		s.GateOut--
 	}
 	now := w.Now()
 	w.mu.Lock()
